@@ -39,6 +39,12 @@ def attribute_errors(out):
         m = re.match(r"\s*// @type (\d+) (\w+)", line)
         if m:
             markers.append((n, int(m.group(1)), m.group(2)))
+    names = {}
+    txt = open(GEN_CORPUS).read()
+    mm = re.search(r"pub static TYPE_NAMES: \[&str; N_TYPES\] = \[(.*?)\];", txt, re.S)
+    if mm:
+        for i, n in enumerate(re.findall(r'"((?:[^"\\\\]|\\\\.)*)"', mm.group(1))):
+            names[n] = i
     by_type, other = {}, False
     blocks = re.split(r"\n(?=error)", out)
     for b in blocks:
@@ -50,10 +56,15 @@ def attribute_errors(out):
             continue
         ln = int(locs[0])
         prev = [m for m in markers if m[0] <= ln]
-        if not prev or prev[-1][2] != "dm":
-            other = True
+        if prev and prev[-1][2] == "dm":
+            by_type.setdefault(prev[-1][1], b.strip()[:1500])
             continue
-        by_type.setdefault(prev[-1][1], b.strip()[:1500])
+        # knock-on error outside the module: "`dm::X` doesn't implement `Debug`" (the derive produced no impl)
+        m = re.search(r"`dm::((?:r#)?\w+)(?:<[^`]*>)?` doesn't implement `Debug`", b)
+        if m and m.group(1) in names:
+            by_type.setdefault(names[m.group(1)], b.strip()[:1500])
+            continue
+        other = True
     return by_type, other
 
 
